@@ -46,6 +46,22 @@ checks = {
    text="three complete finite spaces through the real code: (1) Branch.Target on real Branch objects (root and fork branches straddling either median window) for all 3^6 order/tie patterns of the six headers that matter x 8 time-span classes x bits patterns, compared with a reference implementation of the network's 144-block algorithm; (2) every exponent byte 0..255 x 11 mantissas through ProcessHeader and HandleHeadersMessage: no panic for any encoding, refusal whenever the hash exceeds a well-defined target (incl. zero targets); (3) both real mainnet fixture chains (incl. the 556767 split) accepted with difficulty checking on, and 15 single-field mutations of every header in a window refused with the right error class",
    note="no mining: a header meeting a small target cannot be constructed, so the accept side rests on the real chain; negative/overflowing encodings only need to not crash; reference DAA/compact codec in /verif/ref written from the published node algorithm",
    tech="bounded-exhaustive enumeration of finite input spaces on the implementation against a reference (exhaustive: true)"),
+ "C03": dict(engine="hdrmc+netmc", cat="model_checking", ref="DESIGN.md 3, 5, 7 C03",
+   text="repository part: all histories under a synthetic split table (required split at height 3, foreign splits at 2 and 3; forks created below and grown through the split heights; foreign split headers offered in every state with known and unknown parents): no header but the required one is ever held at the required height on any branch, foreign split headers always answered wrong-chain; plus the real mainnet table on the real 556000-556800 chain (BSV accepted, BCH / arbitrary headers refused at 556767 on the main chain and on forks started at 556765-556767, published constants, verify-only locator). Peer part: BFS over message histories (version/verack in every order and repetition, 8 kinds of headers replies, other letters) on a real node, full and verify-only: Verified()/IsReady() iff the first header of the first headers message after handshake completion is the BSV split header, otherwise disconnected",
+   note="peer part: node runs free on an in-memory connection (scheduling inside the node not enumerated; violations must reproduce 3/3); the BTC split header is not available offline, BTC is covered through the synthetic table and the constants check",
+   tech="explicit-state model checking of the implementation (two engines: header repository BFS with reference model; message-history BFS on a real node)"),
+ "C13": dict(engine="netmc", cat="model_checking", ref="DESIGN.md 5, 7 C13",
+   text="BFS over all message histories (30 letters: handshake messages in any order/repetition, headers of 8 kinds, addr, inv, tx, block, extended messages, getaddr, protoconf, reject, unknown commands...) from connect and from handshake-complete, for full nodes with and without tx manager and verify-only nodes registered with a NodeManager: while Verified() is false no ProcessHeader / peer-book Add,UpdateScore / tx-manager entry / processor call may be recorded by the spies, the node may only have sent version, verack, ping, pong, protoconf and one getheaders, and NodeManager requests must not be routed through it; verify-only nodes disconnect right after successful verification",
+   note="node runs free on an in-memory connection; oracles are spy observations (conclusive when they fire); state key = hooked node dump + spy counters + sent-command counts",
+   tech="explicit-state model checking of the implementation (BFS over message histories, state de-duplication by hooked node dump)"),
+ "C14": dict(engine="netmc", cat="model_checking", ref="DESIGN.md 5, 7 C14",
+   text="from the ready state (with/without tx manager, with/without a requested block) and from handshake-complete: all sequences of up to 2/3 letters over the full 45-letter alphabet (known and unknown commands, payloads 0 B - 4 MiB, classic and extended framing, requested/unrequested blocks and txs, empty/full lists), extended to depth 13 along state-changing letters (repeated version, verack, protoconf, getaddr, inv, tx, headers); after every letter a ping must be answered with its nonce while the connection is up",
+   note="a missing pong is judged after 4 s (normal latency is tens of microseconds) and only reported if it reproduces 3/3; node scheduling is free-running",
+   tech="explicit-state model checking of the implementation (BFS over message histories with a ping barrier after every message)"),
+ "C15": dict(engine="netmc", cat="exploration", ref="DESIGN.md 5, 7 C15",
+   text="complete structured enumeration of hostile byte streams (5 session stages x 19 base messages x frame/field mutations, extended headers with lengths up to 2^64-1 and no data, headers with 14 bits encodings x 4 timestamps, transactions with hostile counts in classic / extended / in-block form, hostile block transaction counts, block frame shorter than content; thorough adds (mutated, valid) pairs) delivered to real nodes in worker processes under an address-space limit; a dying worker identifies the case; Run must return after the peer closes; a healthy witness node sharing the repositories must keep answering",
+   note="crash = worker process death; 8 GB address-space limit on workers; findings rooted in the tokenized/pkg/wire dependency are listed in KNOWN_FINDINGS.txt",
+   tech="bounded-exhaustive enumeration of structured hostile inputs on the implementation in isolated worker processes"),
  "C04": dict(engine="blkenum", cat="fault_enumeration", ref="DESIGN.md 6, 7 C04",
    text="complete Cartesian enumeration of block size (1-8/9) x relevant subset x corruption/fault kind x position through the real BlockDownloader.HandleBlock with a recording processor/store: confirmation-stage calls occur only for the requested header with full count and matching merkle root and no earlier fault; then exactly coinbase, the relevant occurrences in block order with proofs that verify (also recomputed by an independent merkle implementation), the txid record last; Complete is nil iff all of it happened",
    note="HandleBlock driven directly with a pre-filled closed channel (sequential); interleavings are C16; the node-side framing leg is covered by the C14/C15 checks",
@@ -61,7 +77,8 @@ hook_commits = subprocess.run("git -C /repo log --format=%h --grep='verif-tagged
 engines = {}
 entries = []
 for pid, c in checks.items():
-    engines.setdefault(c["engine"], []).append(pid)
+    for e in c["engine"].split("+"):
+        engines.setdefault(e, []).append(pid)
     entries.append({
         "property_id": pid,
         "quick_cmd": f"bin/check {pid} quick",
@@ -78,6 +95,7 @@ kinds = {
  "powenum": "complete enumeration of difficulty-algorithm inputs, compact-bits encodings and real-chain mutations through the real headers package",
  "blkenum": "complete enumeration of block contents x corruptions x fault positions through the real BlockDownloader.HandleBlock",
  "peermc": "explicit-state BFS over operation histories on the real StoragePeerRepository against a map model; file-prefix enumeration; arbitrary-content loads in limited worker subprocesses",
+ "netmc": "explicit-state BFS over wire-message histories delivered to a real BitcoinNode on an in-memory connection (ping barrier per message, hooked node dump as state key); hostile-input enumeration in worker processes",
  "hdrmc": "explicit-state BFS over operation histories on the real headers.Repository; exact state de-duplication; reference block-tree model; crash-point enumeration",
 }
 setup = f"cd /verif && {GO} && mkdir -p .build && " + " && ".join(
